@@ -12,6 +12,7 @@ marker model (Model/MarkerAlg.lean) and of the version model (Model/Version.lean
 -/
 import PoetryVerif.Proofs.Conc
 import PoetryVerif.Proofs.EqHashMarker
+import PoetryVerif.Model.VPrint
 
 set_option linter.unusedSimpArgs false
 set_option linter.unusedVariables false
@@ -61,5 +62,11 @@ theorem parseSpec_congr (hashOf : String → Nat) : (parseSpec hashOf).Congr := 
 (the compare key) -/
 def firstDevSpec (hashOf : Version.Key → Nat) : MemoSpec Version Version :=
   { f := fun v => .ok v.firstDevrelease, hash := fun v => hashOf v.key, eq := Version.eqv }
+
+/-- a cache in front of `_single_wildcard_range_string(first, second)` keyed by the version pair as `Version.__eq__` /
+`__hash__` compare it (trailing release zeros ignored) -/
+def wildcardSpec (hashOf : Version.Key × Version.Key → Nat) : MemoSpec (Version × Version) String :=
+  { f := fun p => singleWildcardRangeString p.1 p.2, hash := fun p => hashOf (p.1.key, p.2.key),
+    eq := fun a b => Version.eqv a.1 b.1 && Version.eqv a.2 b.2 }
 
 end Poetry.Conc
